@@ -4,6 +4,7 @@ import (
 	"context"
 	"errors"
 	"fmt"
+	"io"
 	"net/http"
 	"strings"
 	"testing"
@@ -66,18 +67,42 @@ type c02Case struct {
 	Meta    int  `json:"meta"`
 	Sent    int  `json:"sent"`     // messages sent before the error (server-streaming kinds)
 	ByIcept bool `json:"by_icept"` // raised by an interceptor instead of the handler
+	// Cause: the coded error wraps a chain ending in 1 context.Canceled, 2 context.DeadlineExceeded, 3 io.EOF (0 = plain errors.New).
+	Cause int `json:"cause,omitempty"`
 }
 
 func (k c02Case) key() string {
-	return fmt.Sprintf("%s/code%d/msg%d/det%d/meta%d/sent%d/icept=%v", k.Cfg, k.Code, k.Msg, k.Details, k.Meta, k.Sent, k.ByIcept)
+	return fmt.Sprintf("%s/code%d/msg%d/det%d/meta%d/sent%d/icept=%v/cause%d", k.Cfg, k.Code, k.Msg, k.Details, k.Meta, k.Sent, k.ByIcept, k.Cause)
+}
+
+func (k c02Case) message() string {
+	msg := c02Messages[k.Msg]
+	switch k.Cause {
+	case 1:
+		return msg + ": " + context.Canceled.Error()
+	case 2:
+		return msg + ": " + context.DeadlineExceeded.Error()
+	case 3:
+		return msg + ": " + io.EOF.Error()
+	}
+	return msg
 }
 
 func (k c02Case) err() error {
 	msg := c02Messages[k.Msg]
+	var underlying error = errors.New(msg)
+	switch k.Cause {
+	case 1:
+		underlying = fmt.Errorf("%s: %w", msg, context.Canceled)
+	case 2:
+		underlying = fmt.Errorf("%s: %w", msg, context.DeadlineExceeded)
+	case 3:
+		underlying = fmt.Errorf("%s: %w", msg, io.EOF)
+	}
 	if k.Code == 0 {
 		return errors.New(msg)
 	}
-	e := connect.NewError(connect.Code(k.Code), errors.New(msg))
+	e := connect.NewError(connect.Code(k.Code), underlying)
 	for _, d := range c02Details(k.Details) {
 		a, err := anypb.New(d)
 		if err != nil {
@@ -172,9 +197,9 @@ func c02Check(c *ev.Collector, k c02Case) {
 			bad = true
 			viol("same-code", fmt.Sprintf("code=%v", ce.Code()), "client code %v, handler code %v (client error: %v)", ce.Code(), wantCode, clip(res.Err.Error(), 200))
 		}
-		if ce.Message() != c02Messages[k.Msg] {
+		if ce.Message() != k.message() {
 			bad = true
-			viol("same-message", "message-differs", "client message %q, handler message %q", clip(ce.Message(), 120), clip(c02Messages[k.Msg], 120))
+			viol("same-message", "message-differs", "client message %q, handler message %q", clip(ce.Message(), 120), clip(k.message(), 120))
 		}
 		if k.Code != 0 {
 			wd := c02Details(k.Details)
@@ -240,7 +265,7 @@ func c02Cases(thorough bool) []c02Case {
 								for meta := range c02Metas {
 									for _, sent := range sents {
 										for _, ic := range []bool{false, true} {
-											out = append(out, c02Case{cfg, code, msg, det, meta, sent, ic})
+											out = append(out, c02Case{cfg, code, msg, det, meta, sent, ic, 0})
 										}
 									}
 								}
@@ -251,14 +276,22 @@ func c02Cases(thorough bool) []c02Case {
 				}
 				for code := 0; code <= 16; code++ {
 					for msg := range c02Messages {
-						out = append(out, c02Case{cfg, code, msg, 1, 1, 0, false})
+						out = append(out, c02Case{cfg, code, msg, 1, 1, 0, false, 0})
+					}
+					// coded errors whose cause chain ends in a context error or io.EOF keep their own code
+					if code != 0 {
+						for cause := 1; cause <= 3; cause++ {
+							for _, sent := range sents {
+								out = append(out, c02Case{cfg, code, 0, 1, 1, sent, false, cause})
+							}
+						}
 					}
 				}
 				for det := 0; det < 4; det++ {
 					for meta := range c02Metas {
 						for _, sent := range sents {
 							for _, ic := range []bool{false, true} {
-								out = append(out, c02Case{cfg, 10, 2, det, meta, sent, ic})
+								out = append(out, c02Case{cfg, 10, 2, det, meta, sent, ic, 0})
 							}
 						}
 					}
@@ -272,7 +305,7 @@ func c02Cases(thorough bool) []c02Case {
 func TestC02(t *testing.T) {
 	c := ev.New("C02")
 	defer func() { _ = c.Finish() }()
-	c.SetRule("input/configuration enumeration on real clients and handlers: code {plain Go error, 1..16} x message {ascii, empty, non-ASCII UTF-8, NUL/control bytes, '%' forms, CR/LF, leading/trailing blanks, 4 KiB} x details {none, 1, 2 distinct, 2 equal} x metadata multimaps (several values per key, -Bin key) x messages sent before the error {0,1,2} x raised by {handler, interceptor} x {connect,grpc,grpcweb} x {proto,json} x 4 RPC kinds; quick = full code x message product with the other dimensions at a default plus every other dimension varied around one default (deviation bound 2), thorough = full product; distinct = full parameter tuple, all cases are non-trivial (an error is always raised)")
+	c.SetRule("input/configuration enumeration on real clients and handlers: code {plain Go error, 1..16} x message {ascii, empty, non-ASCII UTF-8, NUL/control bytes, '%' forms, CR/LF, leading/trailing blanks, 4 KiB} x details {none, 1, 2 distinct, 2 equal} x metadata multimaps (several values per key, -Bin key) x messages sent before the error {0,1,2} x raised by {handler, interceptor} x underlying cause {plain, wrapping context.Canceled, context.DeadlineExceeded, io.EOF} x {connect,grpc,grpcweb} x {proto,json} x 4 RPC kinds; quick = full code x message product with the other dimensions at a default plus every other dimension varied around one default (deviation bound 2), thorough = full product; distinct = full parameter tuple, all cases are non-trivial (an error is always raised)")
 	c.Assume("memhttp strips optional whitespace around header values as HTTP/1.1 parsers do; error details are Any-wrapped well-known types both ends know")
 	if ev.ReplayFile() != "" {
 		var k c02Case
